@@ -71,8 +71,69 @@ def single_step_cases(ctx):
     ctx.exhaustive["single-step-state-x-message-x-payload"] = count
 
 
+def unknown_options() -> list[dict]:
+    """Non-default settings of every Config option this harness does not know (an option added since the properties were
+    written): 'whatever state the controller is in' includes how it was configured."""
+    import dataclasses
+
+    from aiomysensors.gateway import Config
+
+    known = {"metric", "persistence_file"}
+    settings: list[dict] = []
+    try:
+        fields = dataclasses.fields(Config)
+    except TypeError:
+        return settings
+    for field in fields:
+        if field.name in known:
+            continue
+        default = field.default if field.default is not dataclasses.MISSING else None
+        if isinstance(default, bool):
+            settings.append({field.name: not default})
+        elif isinstance(default, int):
+            settings += [{field.name: value} for value in (0, 1, default * 2 + 1) if value != default]
+        elif isinstance(default, float):
+            settings += [{field.name: value} for value in (0.0, default / 2, default * 10) if value != default]
+        elif isinstance(default, str):
+            settings += [{field.name: value} for value in ("", default + "x")]
+        elif default is None and field.type in ("bool | None", "bool"):
+            settings += [{field.name: True}, {field.name: False}]
+        elif default is None and str(field.type).startswith(("int", "float")):
+            settings += [{field.name: value} for value in (0, 1, 5, 1000)]
+    return settings
+
+
 def random_cases(ctx):
     from .c02 import mutate
+
+    # every number spelling (digit-count ladder, exponents, digit-like characters) in every internal type, on known nodes
+    from .. import spec as _spec
+
+    for version in [None, *VERSIONS]:
+        proto = _spec.pmap(version) or "1.4"
+        for t in range(0, _spec.INTERNAL_MAX[proto] + 1):
+            if ctx.mine():
+                steps = state_prefix("child", False) + [["restore", 0, {"type": 18, "version": "2.0", "children": {}}]]
+                for payload in gens.NUMBER_PAYLOADS:
+                    if ";" in payload:
+                        continue
+                    steps.append(["rx", f"{1 if t != 2 else 0};255;3;0;{t};{payload}\n"])
+                steps.append(["rx", PROBE])
+                yield {"version": version, "steps": steps}
+    options = unknown_options()
+    ctx.obs("unknown-config-options", len(options))
+    for index, extra in enumerate(options):
+        for version in [None, *VERSIONS]:
+            for steps in (histories.presentation_type_sweep([*range(0, 40), 99, -1, -5]),
+                          histories.type_table_sweep([0, 6, 13, 38, 39], list(range(0, 57))),
+                          histories.rich_history(ctx.rng, version, 150), histories.wide_unknown_nodes(17)):
+                if ctx.mine():
+                    mixed = list(steps)
+                    if version != "1.4":
+                        mixed.insert(len(mixed) // 2, ["rx", "0;255;3;0;2;1.4.1\n"])  # the gateway reports an older version
+                    mixed += [["rx", "1;9;0;0;99;odd child type\n"], ["rx", "1;9;1;0;2;1\n"], ["rx", "1;9;2;0;2;\n"],
+                              ["rx", "1;8;0;0;-5;negative child type\n"], ["rx", "1;8;1;0;0;1\n"], ["rx", "1;8;2;0;0;\n"]]
+                    yield {"version": version, "steps": mixed, "config_extra": extra}
 
     for version in [None, *VERSIONS]:
         for steps in (histories.wide_unknown_nodes(ctx.pick(40, 250)), histories.wide_unknown_nodes(17),
